@@ -98,6 +98,18 @@ def handle (j : Json) : Except String Json := do
       | none => jstr "undecided"
     pure (jobj (oc ++ [("target", jchars target), ("target_content", tc), ("files", jarr filesOut),
                        ("rule_ranks", jarr ruleRanks)]))
+  | "idrule" =>
+    -- (round 6) the id rule over the id texts in the order the rule meets them; the text `new_id` /
+    -- the constructor argument store for each text handed to them
+    let ids := ((← getArr j "ids").toList.filterMap (fun x => x.getStr?.toOption)).map String.toList
+    let edits := match j.getObjVal? "edits" with
+      | .ok (.arr xs) => xs.toList.filterMap (fun (x : Json) => x.getStr?.toOption)
+      | _ => ([] : List String)
+    let stored := edits.map fun e =>
+      match Py.Uuid.newId (some e.toList) 0 with
+      | some t => jchars t
+      | none => Json.null
+    pure (jobj [("issues", jarr ((uniqueIdIssues ids).map jchars)), ("stored", jarr stored)])
   | "savepath" =>
     pure (jchars (savePath (← getStr j "path").toList (← getStr j "backend").toList))
   | "rdftarget" =>
